@@ -5,7 +5,9 @@ from .conc_common import *
 RULE = ("programs: a freshly started client session (Settings buffered) with 2-4 tasks each doing open; disable-buffering; "
         "1-3 data writes (plus plain sessions with raw control/data writes); schedules: every interleaving of two tasks' first "
         "steps up to a bound, then random schedules with pre-emption at every hook point, each followed by a round-robin drain; plus a "
-        "multi-threaded start-up stress with a heartbeat (oracle only: the settings frame is the first frame). "
+        "multi-threaded start-up stress with a heartbeat (oracle only: the settings frame is the first frame); keep-alive requests "
+        "from the peer fed at every position of a start-up and under random schedules (the receive task's answer is a write_frame "
+        "call of task 0, buffered / ordered like every other frame). "
         "Non-trivial = at least two tasks have a step between another task's first and last step (a real interleaving); "
         "distinct by sha256 of (programs, schedule).")
 SIDE_LEMMAS = 3
@@ -95,6 +97,29 @@ def gen_cases(tier, seed):
         # drain: everybody finishes, then the forwarding task gets enough steps to empty the channel (7 per chunk)
         rounds = 8 * max(len(p) for p in progs if not is_pump_prog(p)) + 10
         add("plain", progs, sched + drain_suffix(len(progs), rounds) + [pump_t] * (8 * nsend + 4), "random-pump")
+    # frames the RECEIVE task writes: a keep-alive request from the peer is answered through write_frame like everybody
+    # else's frame (seed C11-8 answered it past the start-up buffer). Task 0's program holds the answers (one CWrite per
+    # request, started when the request is dispatched); the request is fed at every position among the first steps of an
+    # opener on a fresh session (start mode: the library's own receive task, free-running) ...
+    HR = "W:9:0:-"
+    progs = [[HR], prog_open_write(1, 1), ["F:hreq"]]
+    for bits in itertools.product([1, 2], repeat=7 if tier == "quick" else 11):
+        add("start", progs, list(bits) + [2] + drain_suffix(3, 24), "exhaustive-heartreq-during-startup")
+    # ... and with the receive task under the scheduler (plain mode: its write_frame is interleaved step by step with
+    # the other writers), 1-3 requests, random schedules
+    for i in range(150 if tier == "quick" else 4000):
+        nt = r.choice([1, 2, 2, 3])
+        nreq = r.randint(1, 3)
+        mode = "start" if r.random() < 0.4 else "plain"
+        progs = [[HR] * nreq]
+        for t in range(1, nt + 1):
+            progs.append(prog_open_write(t, r.randint(1, 3), disable_buf=(r.random() < 0.9), big=(r.random() < 0.2)))
+        progs.append(["F:hreq"] * nreq)
+        L = r.randint(10, 60)
+        sched = [r.randint(0 if mode == "plain" else 1, len(progs) - 1) for _ in range(L)]
+        if r.random() < 0.5:
+            sched = [t for t in sched for _ in range(r.choice([1, 1, 2, 3]))]
+        add(mode, progs, sched + drain_suffix(len(progs), 8 * max(len(p) for p in progs) + 12), "random-heartreq-%s" % mode)
     # multi-threaded start-up stress (heartbeat enabled): no model side, oracle only
     for i in range(4 if tier == "quick" else 16):
         cs.append(Case("mt%d" % i, "mtstart", [150 if tier == "quick" else 1000], "mt-startup-stress", True, model=False))
@@ -138,6 +163,11 @@ def oracle(c, ir):
         return "settings frame duplicated"
     # no duplicates, per-task order, SYN before PSH
     data = [f for f in frames if f != "SETTINGS"]
+    nreq = sum(1 for p in progs0 for x in p if x == "F:hreq")
+    answers = [f for f in data if f.split(".")[0] == "9"]
+    if len(answers) > nreq:
+        return "%d keep-alive answers on the wire for %d requests" % (len(answers), nreq)
+    data = [f for f in data if f.split(".")[0] != "9"]      # answers are identical frames; everything else is unique
     if len(set(data)) != len(data):
         return "a frame appears twice on the wire: %s" % data
     seen_syn = set()
